@@ -80,7 +80,8 @@ def case_lit(case):
     gt = lst(["(%s, (%s, %s))" % (g, qlit(v[0]), coq_op(v[1])) for g, v in case["gtab"].items()])
     mb = "None" if inp["max_backjumps"] is None else f"(Some ({int(inp['max_backjumps'])})%Z)"
     runs = []
-    for r in case["runs"]:
+    check_model = bool(case.get("check_model", True))
+    for r in (case["runs"] if check_model else []):
         if r["status"] == "ok":
             ex = "(Ok (%s, %s))" % (qlit(r["overhead"]), coq(bool(r["minimum_reached"])))
         elif r["status"] == "refused":
@@ -89,9 +90,9 @@ def case_lit(case):
             ex = "Crashed"
         runs.append("(mkRun %s %s %s)" % (tape_lit(r["tape"]), natlit(r["fuel"]), ex))
     oracle_ok = not (case.get("oracle") or {}).get("violates", False)
-    return Raw("(mkC8 %d %s %s %d %s %s %s %s %s %s)" % (
+    return Raw("(mkC8 %d %s %s %d %s %s %s %s %s %s %s)" % (
         inp["nq"], coq(coq_circ(case["canon_in"])), gt, max(0, inp["W"]), coq(bool(inp["gate_lo"])),
-        coq(bool(inp["wire_lo"])), qlit(Fraction(inp["max_gamma"])), mb, lst(runs), coq(oracle_ok)))
+        coq(bool(inp["wire_lo"])), qlit(Fraction(inp["max_gamma"])), mb, lst(runs), coq(check_model), coq(oracle_ok)))
 
 
 # ----------------------------------------------------------------------------------------
@@ -207,16 +208,35 @@ def judge(case, budget=3_000_000):
     opt_overhead = opt * opt
     unrestricted = inp["max_backjumps"] is None and Fraction(inp["max_gamma"]) >= opt
     problems = []
+
+    def same(a, b):      # equal up to the one binary64 rounding of gamma ** 2 beyond 2^52
+        return a == b or (max(a, b) > 2 ** 52 and abs(a - b) * 2 ** 50 <= max(a, b))
+
     for r in ok_runs:
         ov = Fraction(r["overhead"])
-        if r["minimum_reached"] and opt_overhead < ov and not (opt_overhead > 2 ** 52 and abs(ov - opt_overhead) * 2 ** 50 <= opt_overhead):
+        # (a) a reported minimum is the minimum
+        if r["minimum_reached"] and opt_overhead < ov and not same(ov, opt_overhead):
             problems.append(f"seed {r['seed']}: minimum_reached=True with overhead {ov}, but a feasible assignment has overhead {opt_overhead}")
+        # (b) the unrestricted search reports the minimum as reached
         if unrestricted and not r["minimum_reached"]:
             problems.append(f"seed {r['seed']}: search unrestricted (max_backjumps None, max_gamma {inp['max_gamma']} >= optimal gamma {opt}) "
                             f"but minimum_reached=False (overhead {ov})")
-    if unrestricted and len({r["overhead"] for r in ok_runs}) > 1:
-        problems.append("search unrestricted but the overhead depends on the seed: " +
-                        ", ".join(f"seed {r['seed']} -> {r['overhead']}" for r in ok_runs))
+        # (d) attainment: the returned overhead is that of some permitted choice meeting the width limit, so never below the optimum
+        if ov < opt_overhead and not same(ov, opt_overhead):
+            problems.append(f"seed {r['seed']}: returned overhead {ov} is below the overhead {opt_overhead} of every permitted choice of cuts "
+                            f"that meets the width limit (understated)")
+    # (c) the unrestricted search returns the same overhead under every seed
+    if unrestricted and ok_runs:
+        ovs = [Fraction(r["overhead"]) for r in ok_runs]
+        if not all(same(ovs[0], o) for o in ovs):
+            problems.append("search unrestricted but the overhead depends on the seed: " +
+                            ", ".join(f"seed {r['seed']} -> {r['overhead']}" for r in ok_runs))
+    # (e) the unrestricted search on a request that admits a solution always reports (does not raise)
+    if unrestricted:
+        for r in runs:
+            if r["status"] != "ok":
+                problems.append(f"seed {r['seed']}: search unrestricted and a feasible choice of cuts exists (gamma {opt}), but find_cuts "
+                                f"raised ({r['status']}: {r.get('error')})")
     detail = (f"brute force over {nodes} search nodes: {nfeas} feasible assignments, optimal gamma {opt} (overhead {opt_overhead}); "
               f"unrestricted={unrestricted}; " + ("; ".join(problems) if problems else
                                                  "recorded (overhead, minimum_reached) = %s consistent with the property"
@@ -344,9 +364,13 @@ def generate(rng, tier, outdir):
         runs = case["runs"]
         if thin and all(r["status"] != "ok" or r["n_cuts"] == 0 for r in runs) and rng.random() > 0.25:
             return None           # keep only a fraction of the uninformative outcomes (no cut needed / refusal)
-        if any(r["visited"] > visit_cap for r in runs):
-            w.count(group + ".skipped", f"more than {visit_cap} states visited (model evaluation budget)")
-            return None
+        case["check_model"] = not any(r["visited"] > visit_cap for r in runs)
+        if not case["check_model"]:
+            # too deep for the model-evaluation budget: not compared with the model, still judged by the oracle (k_oracle)
+            w.count(group + ".deep", f"more than {visit_cap} states visited: judged by the oracle only")
+            for r in runs:
+                if r["seed"] is not None:
+                    r["tape"] = []          # reproducible from the seed; keeps the JSON small
         gg = [r.get("greedy_gamma") for r in runs if r.get("greedy_gamma")]
         if gg and Fraction(gg[0]) >= (1 << 26):
             w.count(group + ".skipped", "greedy gamma >= 2^26 (gamma**2 not exact in binary64)")
@@ -362,6 +386,11 @@ def generate(rng, tier, outdir):
         # the independent oracle ran on every generated case; a case it rejects is marked in the Coq literal (k_oracle = false),
         # so it is reported as a disagreement even if model and implementation agree with each other
         orc = case["oracle"]
+        w.contract("judge_accepts_clean_case", not orc["violates"])
+        if orc.get("optimum") is not None and Fraction(inp["max_gamma"]) == Fraction(orc["optimum"]):
+            w.count(group + ".max_gamma_exactly_at_optimum", True)
+        if inp["W"] > inp["nq"]:
+            w.count(group + ".W_above_nq", True)
         w.count(group + ".oracle_verdict", "VIOLATES" if orc["violates"] else ("consistent" if orc.get("decided") else "outside domain / undecided"))
         if orc.get("optimum") is not None:
             opt = Fraction(orc["optimum"])
@@ -395,15 +424,24 @@ def generate(rng, tier, outdir):
                                  seeds=[k % 97, None]))
 
     # ---- bounded-exhaustive: every circuit up to relabelling on <= 4 qubits, every W and cut-kind combination ----
-    gmax_full = 2 if quick else 4
-    n_sample = 700 if quick else 0
+    gmax_full = 3 if quick else 4
+    n_sample = 300 if quick else 0
     it = 0
 
+    sched = {}
+
     def small_case(nq, ops, W, lo, it):
-        mg = MAX_GAMMAS[(it * 5 + it // 7) % len(MAX_GAMMAS)] if it % 3 else 1024
-        mb = BACKJUMPS[(it // 2 + it // 11) % len(BACKJUMPS)] if it % 2 else None
+        # `it` advances once per (circuit, W, lo) with lo innermost; the schedule is driven by the request index it // 3 shifted by
+        # the position of lo, so that every cut-kind combination meets every max_gamma / max_backjumps (checked below)
+        j = LO.index(tuple(lo))
+        h = (it // 3) * 3 + (it // 3 + j) % 3 + 7 * j
+        mg = MAX_GAMMAS[(h * 5 + h // 7) % len(MAX_GAMMAS)] if h % 3 else 1024
+        mb = BACKJUMPS[(h // 2 + h // 11) % len(BACKJUMPS)] if h % 2 else None
         s = int(rng.integers(0, 1000))
-        seeds = [s, s + 1] if (quick or it % 4) else [s, None]
+        seeds = [s, s + 1] if h % 4 else [s, None]
+        sched.setdefault((j, mg), 0)
+        sched[(j, mg)] += 1
+        w.count("exhaustive.cut_kinds_x_max_gamma", f"gate={lo[0]},wire={lo[1]} x {mg}")
         return dict(nq=nq, ops=ops, W=W, gate_lo=lo[0], wire_lo=lo[1], max_gamma=mg, max_backjumps=mb, seeds=seeds)
 
     jobs = []
@@ -412,8 +450,8 @@ def generate(rng, tier, outdir):
             for W in range(1, nq + 1):
                 for lo in LO:
                     inp = small_case(nq, ops, W, lo, it)
-                    if g == 4:
-                        inp["seeds"] = inp["seeds"][:1]          # 155 904 requests: one seed each
+                    if g == 4 or (quick and g == 3):
+                        inp["seeds"] = inp["seeds"][-1:] if it % 5 == 0 else inp["seeds"][:1]   # one seed each (sometimes None)
                     jobs.append(dict(kind="exhaustive", input=inp))
                     it += 1
     if quick or len(jobs) < 2000:
@@ -427,7 +465,7 @@ def generate(rng, tier, outdir):
         record("exhaustive", case)
         w.count("exhaustive.gates", len(case["input"]["ops"]))
     if n_sample:
-        pool = [c for g in (3, 4) for c in small_circuits(g)]
+        pool = list(small_circuits(4))
         for k in range(n_sample):
             nq, ops = pool[int(rng.integers(0, len(pool)))]
             W = int(rng.integers(1, nq + 1))
@@ -435,6 +473,9 @@ def generate(rng, tier, outdir):
             emit("exhaustive", small_case(nq, ops, W, lo, it))
             w.count("exhaustive.gates", str(len(ops)) + " (random sample)")
             it += 1
+
+    w.contract("exhaustive stream: every cut-kind combination meets every max_gamma",
+               all(sched.get((j, mg), 0) > 0 for j in range(3) for mg in MAX_GAMMAS))
 
     # ---- limits below the optimum on purpose: small circuits with max_gamma in {1, 2} (the F3 trigger, found afresh) ----
     pool34 = [c for g in (3, 4) for c in small_circuits(g)]
@@ -452,9 +493,17 @@ def generate(rng, tier, outdir):
     while kept < n_rand:
         nq = int(rng.integers(2, 7))
         n2q = int(rng.integers(1, 8))
-        ops = rand_ops(rng, nq, n2q, ["cx", "swap"], p_idle=0.1, p_barrier=0.0, p_1q=0.25)
+        shapes = rng.random() < 0.5
+        kinds = ["cx", "swap", "cz", "iswap"] if shapes else ["cx", "swap"]
+        ops = rand_ops(rng, nq, n2q, kinds, p_idle=0.1, p_barrier=(0.12 if shapes else 0.0), p_1q=0.25,
+                       opaque=(shapes and rng.random() < 0.4))
+        if shapes and rng.random() < 0.3:
+            for o in ops:                      # a gate of gamma exactly 1 (cutting it is free)
+                if o["name"] in kinds and len(o["qs"]) == 2 and rng.random() < 0.3:
+                    o["name"], o["params"] = "rzz", [0.0]
         W = int(rng.integers(1, nq + 1)) if rng.random() < 0.3 else int(rng.integers(1, max(2, nq // 2 + 1) + 1))
-        W = min(W, nq)
+        W = min(W, nq) if rng.random() < 0.95 else nq + 1
+        w.count("random.shapes", "barriers / opaque 2-qubit instruction / cz, iswap / gamma-1 gate" if shapes else "cx, swap only")
         gl, wl = LO[int(rng.integers(0, 3))]
         mg = MAX_GAMMAS[int(rng.integers(0, len(MAX_GAMMAS)))]
         mb = BACKJUMPS[int(rng.choice(len(BACKJUMPS), p=[0.1, 0.15, 0.15, 0.25, 0.35]))]
@@ -495,12 +544,14 @@ def generate(rng, tier, outdir):
              "(1b) corpus of %d circuits of the bounded space whose every brute-force optimum wire-cuts a qubit and later gate-cuts a gate touching "
              "the re-wired qubit (gate and wire cuts allowed, tight W, unrestricted search, 2 seeds; quick tier: the first 60 and every third); "
              "(2) bounded-exhaustive: every circuit up to qubit relabelling on <=4 qubits with <=%s two-qubit gates from {cx: gamma 3, swap: gamma 7}"
-             "%s, every W in 1..n and every cut-kind combination, max_gamma/max_backjumps cycling through %s / %s, 2 seeds (1 seed for 4 gates); "
+             "%s, every W in 1..n and every cut-kind combination, max_gamma/max_backjumps cycling through %s / %s so that every cut-kind combination "
+             "meets every limit, 2 seeds (1 seed for 4 gates and for 3 gates in the quick tier); searches beyond the model-evaluation budget are judged by the oracle only; "
              "(2b) random circuits of that space with 3-4 gates, W < n, max_gamma in {1,2} (limits below the optimum on purpose); "
-             "(3) random circuits on 2..6 qubits with 1..7 two-qubit gates (idle qubits, arbitrary first use, one-qubit gates), max_gamma in %s "
+             "(3) random circuits on 2..6 qubits with 1..7 two-qubit gates (idle qubits, arbitrary first use, one-qubit gates; half of them also "
+             "with partial/full barriers, opaque 2-qubit non-Gate instructions, cz/iswap (equal gammas) and rzz(0) of gamma 1; W occasionally n+1), max_gamma in %s "
              "(limits below the optimum included), max_backjumps in %s, 3 seeds incl. None; (4) malformed: invalid settings, no cut kind, W=0. "
              "Compared EXACTLY per seed with the model fed the recorded queue tape: sampling_overhead and minimum_reached (or the refusal). "
              "non-trivial = at least one cut made." % (
-                 len(REWIRED_CORPUS), gmax_full, " plus a random sample of %d circuits with 3-4 gates" % n_sample if n_sample else "",
+                 len(REWIRED_CORPUS), gmax_full, " plus a random sample of %d circuits with 4 gates" % n_sample if n_sample else "",
                  MAX_GAMMAS, BACKJUMPS, MAX_GAMMAS, BACKJUMPS),
         extra=dict(extra=dict(strict=True)))
